@@ -127,7 +127,7 @@ def r3(rep, prog):
                     if got is None:
                         continue
                     nclass += 1
-                    rep.check(got == want, R, "%s -> %s: `%s` receives a %s (site %d)" % (short(b.id), short(callee).split("::")[-1], want, got, n),
+                    rep.check(got == want, R, "%s -> %s: argument `%s` receives a %s" % (short(b.id), short(callee).split("::")[-1], want, got),
                               "argument %d is a %s" % (i, got),
                               "`%s` passes a %s where `%s` expects `%s`: with deleted documents the doc-id space is larger than the live count, so documents with ids >= num_docs are dropped (or phantom ids appear)" % (b.id, got, callee, want),
                               site=site(b, bi))
